@@ -7,8 +7,13 @@
 // |x| >= 1/8, h = 1/64, so no kink (relu, abs, max, pooling) is straddled.
 //
 // line:  <naive|eigen> <case> <seed>      ->  ok pass <#elements> | ok FAIL … | err
+//        alloc <naive|eigen> <case> <seed> -> the same program on a device whose new_handle counts, poisons and
+//        fails at the k-th allocation, for every k: the failure must surface as an Error, the retried request must
+//        equal a run that never failed, every function result must be fully written, backward() must release every
+//        intermediate gradient, and no buffer may outlive graph, tensors and parameters (properties C10, C11)
 #include "common.h"
 #include <algorithm>
+#include <cstring>
 #include <cmath>
 #include <functional>
 #include <memory>
@@ -29,6 +34,39 @@ typedef std::vector<Node> NV;
 enum Dom { ANY, POS, UNIT, MID };  // nonzero / positive / |x| <= 1 / 1/2 <= |x| <= 3/2
 
 static Device *g_other = nullptr;  // a second device object of the other backend
+
+// ---- `alloc` mode: devices whose new_handle counts, poisons and can be made to fail ----
+static long g_live = 0, g_allocs = 0, g_fail_at = -1;
+static bool g_failed = false;
+static const std::uint32_t POISON = 0x7fc0deadu;   // a NaN with a payload no kernel produces
+
+static std::shared_ptr<void> instrumented_handle(const Shape &shape, std::size_t *const allocated_size) {
+  if (g_fail_at >= 0 && g_allocs == g_fail_at) {
+    g_fail_at = -1;
+    g_failed = true;
+    PRIMITIV_THROW_ERROR("Memory allocation failed (injected).");
+  }
+  ++g_allocs;
+  const std::size_t n = shape.size();
+  const std::size_t mem_size = sizeof(float) * n;
+  void *data = std::malloc(mem_size ? mem_size : 1);
+  if (!data) PRIMITIV_THROW_ERROR("Memory allocation failed. Requested size: " << mem_size);
+  std::uint32_t *w = static_cast<std::uint32_t *>(data);
+  for (std::size_t i = 0; i < n; ++i) w[i] = POISON;
+  if (allocated_size) *allocated_size = mem_size;
+  ++g_live;
+  return std::shared_ptr<void>(data, [](void *p) { std::free(p); --g_live; });
+}
+class INaive : public devices::Naive {
+  std::shared_ptr<void> new_handle(const Shape &shape, std::size_t *const allocated_size) override {
+    return instrumented_handle(shape, allocated_size);
+  }
+};
+class IEigen : public devices::Eigen {
+  std::shared_ptr<void> new_handle(const Shape &shape, std::size_t *const allocated_size) override {
+    return instrumented_handle(shape, allocated_size);
+  }
+};
 
 struct Case {
   std::vector<Shape> ps;
@@ -411,7 +449,118 @@ static double eval_total(Device &dev, const Case &c, const std::vector<std::vect
   return s;
 }
 
+static std::vector<std::uint32_t> bits_of(const std::vector<float> &v) {
+  std::vector<std::uint32_t> b(v.size());
+  for (std::size_t i = 0; i < v.size(); ++i) std::memcpy(&b[i], &v[i], 4);
+  return b;
+}
+
+struct ProgRun {
+  bool threw = false;            // the armed failure surfaced as a primitiv::Error
+  bool fired = false;            // the armed allocation was reached
+  std::string problem;           // non-empty: a violation observed inside the run
+  std::vector<std::uint32_t> value, value2;
+  long allocs = 0;
+};
+
+// Builds the program on `dev`, arms a failure at the `fail_at`-th allocation of the request (-1: none),
+// requests the result, then (failure or not) requests it again with memory available.
+static ProgRun run_prog(Device &dev, const Case &c, const std::vector<std::vector<float>> &theta,
+                        const std::vector<std::vector<float>> &offs, const std::vector<float> &W, long fail_at, bool accounting) {
+  ProgRun r;
+  const long base_live = g_live;
+  {
+    std::vector<std::unique_ptr<Parameter>> ps;
+    for (std::size_t i = 0; i < c.ps.size(); ++i) ps.emplace_back(new Parameter(c.ps[i].resize_batch(1), theta[i], dev));
+    Graph g;
+    Graph::set_default(g);
+    NV xs;
+    for (std::size_t i = 0; i < ps.size(); ++i) {
+      Node x = F::parameter<Node>(*ps[i]);
+      if (c.ps[i].has_batch()) x = x + F::input<Node>(c.ps[i], offs[i], dev);
+      xs.push_back(x);
+    }
+    Node y = c.f(xs);
+    Node total = y * F::input<Node>(y.shape(), W, dev);
+    g_allocs = 0; g_failed = false; g_fail_at = fail_at;
+    try {
+      r.value = bits_of(total.to_vector());
+    } catch (const Error &) {
+      r.threw = true;
+    }
+    r.fired = g_failed;
+    r.allocs = g_allocs;
+    g_fail_at = -1;
+    if (fail_at >= 0 && r.fired && !r.threw) r.problem = "an allocation failure did not surface as an exception";
+    try {
+      r.value2 = bits_of(total.to_vector());
+      const std::vector<std::uint32_t> yb = bits_of(y.to_vector());
+      for (std::uint32_t b : r.value2) if (b == POISON) r.problem = "the result contains elements that were never written (allocator poison)";
+      for (std::uint32_t b : yb) if (b == POISON) r.problem = "a function result contains elements that were never written (allocator poison)";
+    } catch (const std::exception &e) {
+      r.problem = std::string("requesting the value again after the failure raised: ") + e.what();
+    }
+    if (accounting && r.problem.empty() && !c.expect_zero) {
+      // backward() must release every intermediate gradient: live buffers before == after
+      const long before = g_live;
+      total.backward();
+      if (g_live != before) {
+        r.problem = "backward() left " + std::to_string(g_live - before) + " device buffer(s) alive (intermediate gradients not released)";
+      }
+    }
+  }
+  if (g_live != base_live && r.problem.empty()) {
+    r.problem = std::to_string(g_live - base_live) + " device buffer(s) still alive after graph, tensors and parameters are gone";
+  }
+  return r;
+}
+
+static std::string exec_alloc(const std::vector<std::string> &w) {
+  // alloc <naive|eigen> <case> <seed>
+  std::unique_ptr<Device> dev, other;
+  if (w[1] == "eigen") { dev.reset(new IEigen()); other.reset(new devices::Naive()); }
+  else if (w[1] == "naive") { dev.reset(new INaive()); other.reset(new devices::Eigen()); }
+  else throw BadOp();
+  g_other = other.get();
+  Device::set_default(*dev);
+  Rng r(vh::to_u32(w[3]) * 2654435761u + 17);
+  Case c = make_case(w[2], r);
+  std::vector<std::vector<float>> theta, offs;
+  for (std::size_t i = 0; i < c.ps.size(); ++i) {
+    theta.push_back(values(r, c.ps[i].volume(), c.dom[i]));
+    std::vector<float> o(c.ps[i].size());
+    for (float &e : o) e = (static_cast<int>(r.n(3)) - 1) / 32.0f;
+    offs.push_back(o);
+  }
+  Shape ys;
+  {
+    devices::Naive plain;
+    Device::set_default(plain);
+    eval_total(plain, c, theta, offs, std::vector<float>(), nullptr, &ys);
+    Device::set_default(*dev);
+  }
+  std::vector<float> W(ys.size());
+  for (float &e : W) { int k = static_cast<int>(r.in(1, 4)); e = (r.coin() ? k : -k) / 4.0f; }
+  ProgRun clean = run_prog(*dev, c, theta, offs, W, -1, true);
+  if (!clean.problem.empty()) return "ok FAIL case=" + w[2] + " clean-run: " + clean.problem;
+  if (clean.threw) return "err";
+  const long N = clean.allocs;
+  long tried = 0;
+  for (long k = 0; k < N; ++k) {
+    if (N > 48 && (k % (N / 48 + 1)) != 0) continue;
+    ProgRun f = run_prog(*dev, c, theta, offs, W, k, false);
+    ++tried;
+    if (!f.problem.empty()) return "ok FAIL case=" + w[2] + " allocation " + std::to_string(k) + " of " + std::to_string(N) + ": " + f.problem;
+    if (f.value2 != clean.value) {
+      return "ok FAIL case=" + w[2] + " allocation " + std::to_string(k) + " of " + std::to_string(N)
+           + ": after the failure the retried request differs from a run that never failed";
+    }
+  }
+  return "ok pass allocs=" + std::to_string(N) + " failures-injected=" + std::to_string(tried);
+}
+
 static std::string exec(const std::vector<std::string> &w) {
+  if (w.size() == 4 && w[0] == "alloc") return exec_alloc(w);
   if (w.size() != 3) throw BadOp();
   std::unique_ptr<Device> dev;
   if (w[0] == "eigen") dev.reset(new devices::Eigen());
